@@ -40,6 +40,17 @@ def scenarios(thorough):
         out.append(cc.mk([P(1)], room=30, extra_client=[["readall_after_block", 4 if ov > 1 else 1]],
                          apps={1: {"chunks": sizes, "cl": "none"}}, adj={"outbuf_high_watermark": 1000, "outbuf_overflow": ov},
                          name="outbuf_overflow=%d sizes=%s, spill while partly sent" % (ov, sizes)))
+    # more than the mark pending when a request ends and the next one is already queued: the worker drains
+    # (pauses) between the two requests
+    for la in (1, 2):
+        out.append(cc.mk([P(1), P(2)], lookahead=la, workers=1, room=30, extra_client=[["read_after_block", 1, 40], ["read_after_block", 2, 50], ["readall_after_block", 3]],
+                         apps={1: {"chunks": [60]}, 2: {"chunks": [30]}}, adj={"outbuf_high_watermark": 50}, name="backlog above the mark at the end of a request, follower queued, la=%d" % la))
+    # many writes to a reader that takes a few bytes each time the socket was found full: every flush of the paused
+    # producer sends something, the backlog must stay at the mark all the same
+    for take in (5, 20):
+        out.append(cc.mk([P(1)], room=10, extra_client=[["read_after_block", k, take] for k in range(1, 14)] + [["readall_after_block", 14]],
+                         apps={1: {"chunks": [40] * 10, "cl": "none"}}, adj={"outbuf_high_watermark": 50},
+                         name="ten writes, reader takes %d bytes per stall, hwm=50" % take))
     # a send error (not a disconnect) while the producer is above the mark: the producer waits for the I/O thread
     # to tear the connection down and is then released with its request aborted
     import errno
